@@ -86,6 +86,10 @@ def _later(draw, node, top=True):
             items.append([k, tdoc.empty(**{'del': True})])          # value-less !del removes the key
         elif a == 6:
             items.append([k, tdoc.sq([tdoc.sc(draw(st.integers(20, 29))) for _ in range(draw(st.integers(0, 2)))], flow=True)])
+        elif v['t'] == 'map' and _is_fn(v) and a >= 8:
+            # the call / bind node is stated again (same target, fresh arguments): by the merge table this replaces the old arguments,
+            # also when an ancestor of the newer document says !merge
+            items.append([k, {**tdoc.mp([('y', tdoc.sc(draw(st.integers(40, 49))))], flow=True), 'tag': v['tag']}])
         elif v['t'] == 'map':
             if _is_fn(v) and any(isinstance(kk, int) for kk, _ in v['items']):
                 continue        # positional arguments (after a list override): leaving gaps is the subject of C13
@@ -108,7 +112,12 @@ def _later(draw, node, top=True):
                 items.append([k, tdoc.mp(sub, flow=draw(st.booleans()))])
     if not items and not top:
         return None
-    return tdoc.mp(items, flow=(not top) and draw(st.booleans()))
+    out = tdoc.mp(items, flow=(not top) and draw(st.booleans()))
+    if top and draw(st.integers(0, 3)) == 0:
+        out['del'] = False          # a !merge document: changes nothing for plain mappings, lists would merge index-wise (none generated then)
+        if any(n['t'] == 'seq' for _, n in tdoc.walk(out)):
+            del out['del']
+    return out
 
 
 def fold(a, b):
@@ -117,6 +126,8 @@ def fold(a, b):
         return 'REMOVE'
     if b['t'] in ('sc', 'empty', 'alias'):
         return b
+    if _is_fn(b):
+        return b            # a function node replaces what was there (also the arguments of an older function node)
     if b['t'] == 'seq':
         if _is_fn(a):
             return {**a, 'items': [[i, v] for i, v in enumerate(b['items'])]}
